@@ -52,8 +52,10 @@ def traced_classes():
                                    "after_delayed": self.delayed}
         Traced.__name__ = "Traced" + parent.__name__
         return Traced
+    from leuvenmapmatching.matcher.newsonkrumm import NewsonKrummMatching
     _traced["simple"] = make(SimpleMatching)
     _traced["distance"] = make(DistanceMatching)
+    _traced["nk"] = make(NewsonKrummMatching)
     return _traced
 
 
@@ -84,7 +86,7 @@ def f14_root_cause(matcher, v):
 
 def check_case(case, ctx):
     state = {"n_checked": 0}
-    fam = "distance" if case["config"]["family"] == "distance" else "simple"
+    fam = case["config"]["family"] if case["config"]["family"] in ("distance", "nk") else "simple"
     case = dict(case, config=dict(case["config"], matching=traced_classes()[fam]))
 
     def after(matcher, op, states, idx, cur):
@@ -106,6 +108,11 @@ def check_case(case, ctx):
     matcher, res, cur, applied = common.apply_history(case, after=after)
     lb = matcher.lattice_best or []
     classes = ["family:" + case["config"]["family"], "gen:" + case.get("gen", "?"), "ops:%d" % min(len(applied), 3)]
+    if case.get("linked"):
+        classes.append("linked-edges")
+        sk = [m.shortkey for m in lb]
+        if any(a != b and a[1] != b[0] for a, b in zip(sk, sk[1:])):
+            classes.append("jump-to-linked-edge-on-path")
     run = 0
     for a, b in zip(lb, lb[1:]):
         if b.obs_ne:
@@ -161,7 +168,10 @@ def strategy(tier):
                     ops.append(["rematch"])
             case["ops"] = ops
             return case
-        case = draw(common.mixed_case(tier, ne_share=4, min_len=2, families=base.FAMILIES))
+        case = draw(common.mixed_case(tier, ne_share=4, min_len=2, families=base.FAMILIES4))
+        if gen.chance(draw, 2) and case["config"]["family"] != "simple_n":
+            # linked parallel edges: moves between edges that share no node (not-connected penalty / distances of such a move)
+            case["linked"] = draw(common.linked_pairs(case["graph"]))
         if draw(st.integers(0, 2)) == 0:
             case["ops"] = draw(common.history_ops(len(case["trace"])))
             if case["config"].get("max_lattice_width") is None and draw(st.booleans()):
